@@ -25,6 +25,7 @@ import CelloProofs.Lemmas.HashShape
 import CelloProofs.Lemmas.HashTableW
 import CelloProofs.Lemmas.HashLookup
 import CelloProofs.Lemmas.HashSwap
+import CelloProofs.Lemmas.HashMem
 set_option linter.unusedSimpArgs false
 set_option linter.unusedVariables false
 
@@ -1066,5 +1067,84 @@ example : SameSized [.raw 6 [3, 0, 0, 0, 0, 3], .raw 6 [1, 0, 0, 0, 0, 1]] := by
   simp only [List.mem_cons, List.mem_nil_iff, or_false] at hx hy
   rcases hx with rfl | rfl <;> rcases hy with rfl | rfl <;> simp [SwapCompatible, sameStruct, Scalar.ty]
 
-end Cello.Hash
+/-! ## extension round: `hash_data` as a program over addressable memory; the container hashes as extracted programs -/
 
+/-- the frame of `hash_data` as read from src/Hash.c — element type of the cursor (unsigned bytes), `end = d + (size & ~7)`, 8-byte
+    load, 8-byte step, `switch (size & 7)` — is the frame the theorems below are proved for. About the generated definitions: a
+    cursor over `char`, a different mask, load width or step is a different `srcFrame` and breaks this theorem. -/
+theorem C10_hash_data_source_frame : srcFrame = murmurFrame := by decide
+
+/-- **`hash_data(p, n)` run as the extracted program on any memory, at any address, is `hashData` of the `n` bytes at `p`**: the
+    cursor loop `while (d != end)` ends (never `none`), it loads exactly the blocks of the byte string, the tail switch reads
+    `d[idx]` inside the window, and the bytes are widened unsigned. -/
+theorem C10_hash_data_program_is_hash_data (mem : Mem) (p n : Nat) :
+    hashDataMem mem p n = some (hashData (loadBytes mem p n)) := hashDataMem_eq mem p n
+
+/-- … hence MurmurHash64A of those bytes -/
+theorem C10_hash_data_program_is_murmur (mem : Mem) (p n : Nat) :
+    hashDataMem mem p n = some (murmur64A 0xCe110 (loadBytes mem p n)) := by
+  rw [hashDataMem_eq, hashData_eq_murmur]
+
+/-- **the hash depends only on the byte list**: two memories, two addresses (of any alignment), the same `n` bytes — the same
+    hash; what lies in front of `p`, behind `p + n` or anywhere else is never looked at. -/
+theorem C10_hash_data_depends_only_on_bytes (mem mem' : Mem) (p p' n : Nat) (h : ∀ i, i < n → mem (p + i) = mem' (p' + i)) :
+    hashDataMem mem p n = hashDataMem mem' p' n := by
+  rw [hashDataMem_eq, hashDataMem_eq, loadBytes_congr mem mem' n p p' h]
+
+/-- a byte string placed at any address of any memory hashes as the byte string -/
+theorem C10_hash_data_at_any_address (fill : UInt8) (p : Nat) (bs : Bytes) :
+    hashDataMem (memOf fill p bs) p bs.length = some (hashData bs) := by
+  rw [hashDataMem_eq, loadBytes_memOf]
+
+/-- non-vacuity: "hello" at the odd address 3 among 0xAA bytes, and at address 4096 among zeros -/
+example : hashDataMem (memOf 0xAA 3 [0x68, 0x65, 0x6c, 0x6c, 0x6f]) 3 5 = hashDataMem (memOf 0 4096 [0x68, 0x65, 0x6c, 0x6c, 0x6f]) 4096 5 :=
+  (C10_hash_data_at_any_address 0xAA 3 [0x68, 0x65, 0x6c, 0x6c, 0x6f]).trans (C10_hash_data_at_any_address 0 4096 [0x68, 0x65, 0x6c, 0x6c, 0x6f]).symm
+example : hashDataMem (memOf 0xAA 3 [0x68, 0x65, 0x6c, 0x6c, 0x6f]) 3 5 = some (murmur64A 0xCe110 [0x68, 0x65, 0x6c, 0x6c, 0x6f]) := by decide +kernel
+
+/-- the same program with the cursor declared over SIGNED bytes (`const char* d`): one byte 0x80 in the tail is sign-extended and
+    the result is no longer the hash of the byte string (nor MurmurHash64A) -/
+theorem C10_hash_data_signed_bytes_refuted :
+    hashDataMemWith { murmurFrame with signed := true } CelloGen.Hash.m CelloGen.Hash.r CelloGen.Hash.seed CelloGen.Hash.blockSteps
+      CelloGen.Hash.tail CelloGen.Hash.finalSteps (memOf 0 0 [0x80, 1]) 0 2 ≠ some (hashData [0x80, 1]) := by decide +kernel
+
+/-- … and with a step that differs from the load width the cursor steps over `end`: the loop does not end -/
+theorem C10_hash_data_wide_step_refuted :
+    hashDataMemWith { murmurFrame with advance := 16 } CelloGen.Hash.m CelloGen.Hash.r CelloGen.Hash.seed CelloGen.Hash.blockSteps
+      CelloGen.Hash.tail CelloGen.Hash.finalSteps (memOf 0 0 [1, 2, 3, 4, 5, 6, 7, 8]) 0 8 = none := by decide +kernel
+
+/-- **the five container hashes, run as the programs extracted from `Array_Hash`, `List_Hash`, `Tuple_Hash`, `Table_Hash`,
+    `Tree_Hash`** (start value, first index, right-hand side of the loop's assignment to `h`), are the folds of the model. About the
+    generated definitions: a loop that starts at 1, a start value other than 0, a right-hand side that is not `h ^ hash(e)` /
+    `h ^ hash(k) ^ hash(v)` break this theorem. -/
+theorem C10_container_hash_source (addr : Nat → Bytes) (st : Store) (v : Val) : valHashSrc addr st v = valHash addr st v := by
+  cases v with
+  | sc s => rfl
+  | seq k ty items =>
+    cases k with
+    | array => exact seqHashSrc_xor _ _
+    | list => exact seqHashSrc_xor _ _
+  | tuple ids => exact seqHashSrc_xor _ _
+  | table kt vt t => exact mapHashSrc_xor _ _ _
+  | tree kt vt t => exact mapHashSrc_xor _ _ _
+
+/-- **eq → hash equal over the extracted hash programs**: `C10_eq_hash` with every container hash computed by the program read
+    from its `X_Hash` -/
+theorem C10_eq_hash_source (addr : Nat → Bytes) (st : Store) (a b : Val) (hna : a.nanFree st) (hnb : b.nanFree st)
+    (hsm : ¬ SeqVsMap st a b) (h : valCmp addr st a b = some 0) : valHashSrc addr st a = valHashSrc addr st b := by
+  rw [C10_container_hash_source, C10_container_hash_source]; exact C10_eq_hash addr st a b hna hnb hsm h
+
+/-- the extracted sequence program is invariant under permutation of the elements -/
+theorem C10_container_hash_source_perm (hash : α → UInt64) {xs ys : List α} (p : xs.Perm ys) :
+    seqHashSrc CelloGen.Hash.arrayHashProg hash xs = seqHashSrc CelloGen.Hash.arrayHashProg hash ys := by
+  have e : ∀ zs : List α, seqHashSrc CelloGen.Hash.arrayHashProg hash zs = seqHash .xor hash zs := fun zs => seqHashSrc_xor hash zs
+  rw [e, e]; exact (C10_container_hash hash p).1
+
+/-- a counted loop that starts at index 1 (the first element never enters the hash) still maps eq sequences to equal hashes, but
+    it is a different program: the Array [5] then hashes like the empty Array -/
+example : seqHashSrc ⟨0, 1, .xor (.t .acc) (.t .elem)⟩ (fun x : UInt64 => x) [5] = seqHashSrc ⟨0, 1, .xor (.t .acc) (.t .elem)⟩ (fun x : UInt64 => x) [] := by decide
+
+/-- non-vacuity: an Array and a List holding 1, 2 are eq and hash alike through the programs -/
+example : valHashSrc (fun _ => []) #[] (.seq .array .int [.int 1, .int 2]) = valHashSrc (fun _ => []) #[] (.seq .list .int [.int 1, .int 2]) := by
+  decide
+
+end Cello.Hash
